@@ -768,6 +768,20 @@ func checkCtypeFlow(c *Ctx, set []*ssa.Function, isSource func(ssa.Value) bool, 
 	for _, f := range set {
 		inSet[f] = true
 	}
+	// helpers introduced after the baseline that the routines call and that return a
+	// geometry are routines of the same decoder (checked like the others)
+	for i := 0; i < len(set); i++ {
+		eachCall(set[i], func(ci ssa.CallInstruction) {
+			cal := staticCallee(ci)
+			if cal == nil || inSet[cal] || !isNewHelper(cal) || len(cal.Blocks) == 0 || cal.Parent() != nil {
+				return
+			}
+			if res := cal.Signature.Results(); res.Len() >= 1 && geomTypeNames[namedName(res.At(0).Type())] {
+				inSet[cal] = true
+				set = append(set, cal)
+			}
+		})
+	}
 	n := 0
 	for _, f := range set {
 		res := f.Signature.Results()
@@ -857,7 +871,7 @@ func checkCtypeFlow(c *Ctx, set []*ssa.Function, isSource func(ssa.Value) bool, 
 						if ok, why := membersTyped(list); !ok {
 							return "via " + name, false, why
 						}
-						if nonEmptyGuard(r, list) || madeNonEmpty(r, list) || appendedNonEmpty(list, map[ssa.Value]bool{}) || loopAppendedNonEmpty(r, list) {
+						if nonEmptyGuard(r, list) || madeNonEmpty(r, list) || appendedNonEmpty(list, map[ssa.Value]bool{}) || loopAppendedNonEmpty(r, list) || helperListNonEmpty(r, list) {
 							return "via " + name, true, "list argument is provably non-empty (dominating guard), so the constructor derives the type from typed members"
 						}
 						return "via " + name, false, "collection constructor over a possibly empty list yields an XY geometry regardless of " + srcDesc + "; one such empty member strips Z/M from its siblings"
@@ -1057,6 +1071,63 @@ func addrIsRead(v ssa.Value) bool {
 
 // appendedNonEmpty: the list is the result of append(x, e...) with at least
 // one element on every incoming path (loop phis are handled inductively).
+// helperListNonEmpty: the list is a result of a helper introduced after the
+// baseline; every return of the helper gives either a provably non-empty list
+// or nil together with a signal (a constant true flag or a non-nil error), and
+// the use at `at` is under a guard on another result of the same call.
+func helperListNonEmpty(at ssa.Instruction, list ssa.Value) bool {
+	ex, ok := stripLoad(list).(*ssa.Extract)
+	if !ok {
+		return false
+	}
+	call, ok := ex.Tuple.(*ssa.Call)
+	if !ok {
+		return false
+	}
+	h := staticCallee(call)
+	if h == nil || !isNewHelper(h) || len(h.Blocks) == 0 {
+		return false
+	}
+	needGuard := false
+	for _, hr := range returnsOf(h) {
+		v := hr.Results[ex.Index]
+		if isNilConst(v) {
+			signalled := provablyNonNilErr(hr)
+			for i, o := range hr.Results {
+				if b, isC := constBool(o); i != ex.Index && isC && b {
+					signalled = true
+				}
+			}
+			if !signalled {
+				return false
+			}
+			needGuard = true
+			continue
+		}
+		if !(appendedNonEmpty(v, map[ssa.Value]bool{}) || loopAppendedNonEmpty(hr, v) || madeNonEmpty(hr, v)) {
+			return false
+		}
+	}
+	if !needGuard {
+		return true
+	}
+	for _, g := range guardsAt(at) {
+		for _, e := range expandGuard(g) {
+			if ge, ok := resolveCell(e.Cond).(*ssa.Extract); ok && ge.Tuple == ex.Tuple && ge.Index != ex.Index {
+				return true
+			}
+			if bo, ok := e.Cond.(*ssa.BinOp); ok {
+				for _, opnd := range []ssa.Value{bo.X, bo.Y} {
+					if ge, ok := resolveCell(opnd).(*ssa.Extract); ok && ge.Tuple == ex.Tuple && ge.Index != ex.Index {
+						return true
+					}
+				}
+			}
+		}
+	}
+	return false
+}
+
 func appendedNonEmpty(v ssa.Value, visiting map[ssa.Value]bool) bool {
 	v = stripLoad(v)
 	if visiting[v] {
@@ -1155,6 +1226,22 @@ func loopAppendedNonEmpty(at ssa.Instruction, list ssa.Value) bool {
 	ifi, ok := h.Instrs[len(h.Instrs)-1].(*ssa.If)
 	if !ok {
 		return false
+	}
+	// `for more := true; more; { … }`: the condition is a flag that is true on entry
+	if cphi, isPhi := ifi.Cond.(*ssa.Phi); isPhi && cphi.Block() == h && loop[h.Succs[0]] {
+		entryTrue, entries := true, 0
+		for i, e := range cphi.Edges {
+			if loop[h.Preds[i]] {
+				continue
+			}
+			entries++
+			if b, isC := constBool(e); !isC || !b {
+				entryTrue = false
+			}
+		}
+		if entryTrue && entries > 0 {
+			return true
+		}
 	}
 	bo, ok := ifi.Cond.(*ssa.BinOp)
 	if !ok || bo.Op != token.LSS {
